@@ -417,6 +417,46 @@ def chord_mod_symbols(chk, rng):
     return out
 
 
+def chord_double_alt_symbols(chk, rng):
+    """alterations stacked on one scale degree: for EVERY kind abbreviation, the 3rd, the 5th and every degree the
+    kind itself already alters (b3 of minor, #5 of augmented, b5 of diminished, b7, b9, #11 ...) get one '#'/'b'
+    alteration on top (C+(b5), Cm(#3): major triads; C+(#5), Cm(b3), Co(b5): no triads) and all four pairs of two
+    alterations (C(b5)(#5) is C; C(b5)(b5) is not a triad); plus random three-step histories on one degree mixing
+    alteration, removal and re-addition"""
+    from note_seq import chord_symbols_lib as csl
+    kinds = list(csl._CHORD_KINDS_BY_ABBREV)
+    modtab = list(csl._DEGREE_MODIFICATIONS)
+    alt = [modtab.index(m) for m in ('#', 'b')]
+    no, adds = modtab.index('no'), [modtab.index(m) for m in ('add', 'add#', 'addb')]
+    out = []
+
+    def root():
+        return rng.choice(STEPS), rng.choice([-1, 0, 0, 1])
+    for k, ab in enumerate(kinds):
+        own = [csl._parse_degree(d) for d in csl._CHORD_KINDS_BY_ABBREV[ab]]
+        degs = sorted({3, 5} | {d for d, a in own if a != 0})
+        for deg in degs:
+            for a in alt:
+                st, al = root()
+                out.append((st, al, k, [(a, deg, True)], None))
+            for a in alt:
+                for b in alt:
+                    if chk.thorough or deg in (3, 5) or rng.random() < 0.3:
+                        st, al = root()
+                        out.append((st, al, k, [(a, deg, True), (b, deg, True)], None))
+    for _ in range(chk.n(300, 12000)):
+        k = rng.choice([0, 3, 1, 4, 10, 13, 6, 8] + [rng.randrange(len(kinds))] * 3)
+        deg = rng.choice([3, 5, 3, 5, 7, 9, 1])
+        mods = []
+        for _ in range(rng.choice([2, 3, 3, 4])):
+            r = rng.random()
+            mi = rng.choice(alt) if r < 0.7 else no if r < 0.85 else rng.choice(adds)
+            mods.append((mi, deg if rng.random() < 0.85 else rng.choice([3, 5, 7]), True))
+        st, al = root()
+        out.append((st, al, k, mods, rng.choice([None, None, (rng.choice(STEPS), rng.choice([-1, 0, 1]))])))
+    return out
+
+
 def sym_string(sym):
     from note_seq import chord_symbols_lib as csl
     st, al, k, mods, bass = sym
@@ -461,12 +501,15 @@ def chord_requests(chk, rng, add):
             add('chords', '%s_dec %d' % (which, i), res, ('cd', which, i),
                 hist=which + (':dec' if 0 <= i < n else ':dec-out-of-range'))
     gram = chord_grammar(chk, rng)
-    modsyms = chord_mod_symbols(chk, rng)
+    modsyms = chord_mod_symbols(chk, rng) + chord_double_alt_symbols(chk, rng)
     chk.notes['chord_grammar_symbols'] = len(gram)
+    chk.notes['chord_symbols_with_modifications'] = len(modsyms)
     for sym in gram + modsyms:
         fig = sym_string(sym)
         w = sym_wire(sym)
         tag = 'mods' if sym[3] else 'grammar'
+        if sym[3] and stacked_alteration(sym):
+            tag = 'stacked-alteration'
         if not sym[4]:   # root/quality of the real parser vs the structured model (bass never matters)
             def rq():
                 return '%d %d' % (csl.chord_symbol_root(fig), csl.chord_symbol_quality(fig))
@@ -734,6 +777,68 @@ def kind_quality(kind):
                 (third[0], fifth[0]), csl.CHORD_QUALITY_OTHER)
 
 
+def own_degrees(kind, mods):
+    """scale degrees {degree: alteration} a chord symbol denotes, from the kind's degree names in `_CHORD_KINDS` and
+    the documented meaning of the modifications (add: a new degree; no: remove a degree; #/b: raise / lower a
+    degree by a semitone ON TOP of what it already is, or add it altered).  None: a modification cannot be applied
+    (adding a degree that is there, removing one that is not): not a chord symbol.  `mods` = [(type string, degree)]."""
+    from note_seq import chord_symbols_lib as csl
+    degs = {}
+    for d in csl._CHORD_KINDS_BY_ABBREV[kind]:
+        degs[int(d.lstrip('#b'))] = d.count('#') - d.count('b')
+    for ty, deg in mods:
+        if ty in ('add', 'add#', 'addb'):
+            if deg in degs:
+                return None
+            degs[deg] = {'add': 0, 'add#': 1, 'addb': -1}[ty]
+        elif ty == 'no':
+            if deg not in degs:
+                return None
+            del degs[deg]
+        elif ty in ('#', 'b'):
+            degs[deg] = degs.get(deg, 0) + (1 if ty == '#' else -1)
+        else:
+            raise ValueError('modification type %r' % ty)
+    return degs
+
+
+def own_quality(degs):
+    """triad quality from the pitch classes root / 3rd / 5th stand on, in semitones above the root: major (0,4,7),
+    minor (0,3,7), augmented (0,4,8), diminished (0,3,6); anything else (or a missing 1st / 3rd / 5th) is no triad"""
+    from note_seq import chord_symbols_lib as csl
+    if any(d not in degs for d in (1, 3, 5)):
+        return csl.CHORD_QUALITY_OTHER
+    return {(0, 4, 7): csl.CHORD_QUALITY_MAJOR, (0, 3, 7): csl.CHORD_QUALITY_MINOR, (0, 4, 8): csl.CHORD_QUALITY_AUGMENTED,
+            (0, 3, 6): csl.CHORD_QUALITY_DIMINISHED}.get((degs[1], 4 + degs[3], 7 + degs[5]), csl.CHORD_QUALITY_OTHER)
+
+
+def sym_expect(sym):
+    """[root pitch class, triad quality] the structured symbol denotes (None: not a chord symbol)"""
+    from note_seq import chord_symbols_lib as csl
+    kinds = list(csl._CHORD_KINDS_BY_ABBREV)
+    modtab = list(csl._DEGREE_MODIFICATIONS)
+    degs = own_degrees(kinds[sym[2]], [(modtab[mi], deg) for (mi, deg, _) in sym[3]])
+    if degs is None:
+        return None
+    return [(STEP_PC[sym[0]] + sym[1]) % 12, own_quality(degs)]
+
+
+def stacked_alteration(sym):
+    """does a '#'/'b' modification of this symbol hit a degree that is already altered at that point"""
+    from note_seq import chord_symbols_lib as csl
+    kinds = list(csl._CHORD_KINDS_BY_ABBREV)
+    modtab = list(csl._DEGREE_MODIFICATIONS)
+    done = []
+    for (mi, deg, _) in sym[3]:
+        degs = own_degrees(kinds[sym[2]], done)
+        if degs is None:
+            return False
+        if modtab[mi] in ('#', 'b') and degs.get(deg, 0) != 0:
+            return True
+        done.append((modtab[mi], deg))
+    return False
+
+
 def chord_check(which, obj):
     from note_seq import chord_symbols_lib as csl, chords_encoder_decoder as ced
     enc = chord_encoders()[which]
@@ -756,7 +861,14 @@ def chord_check(which, obj):
         return None
     root, quality = csl.chord_symbol_root(fig), csl.chord_symbol_quality(fig)
     if 'expect' in obj and [root, quality] != list(obj['expect']):
-        return 'chord %r: root/quality (%d, %d), the symbol was built with %r' % (fig, root, quality, obj['expect'])
+        try:
+            got = 'class %r' % (enc.encode_event(fig),)
+        except ced.ChordEncodingError:
+            got = 'ChordEncodingError'
+        names = {csl.CHORD_QUALITY_MAJOR: 'a major triad', csl.CHORD_QUALITY_MINOR: 'a minor triad', csl.CHORD_QUALITY_AUGMENTED: 'an augmented triad',
+                 csl.CHORD_QUALITY_DIMINISHED: 'a diminished triad', csl.CHORD_QUALITY_OTHER: 'no triad'}
+        return ('chord %r is read with root/quality (%d, %d) and encodes to %s; its root, 3rd and 5th stand on pitch class %d and %s '
+                '(root/quality %r)' % (fig, root, quality, got, obj['expect'][0], names.get(obj['expect'][1], '?'), list(obj['expect'])))
     try:
         j = enc.encode_event(fig)
     except ced.ChordEncodingError:
@@ -792,7 +904,8 @@ def _oracle_chords(chk, **_):
             if bad:
                 chk.fail(bad, rep)
                 break
-        syms = [(s, True) for s in chord_grammar(chk, rng)] + [(s, False) for s in chord_mod_symbols(chk, rng)]
+        syms = ([(s, True) for s in chord_grammar(chk, rng)] + [(s, False) for s in chord_double_alt_symbols(chk, rng)]
+                + [(s, False) for s in chord_mod_symbols(chk, rng)])
         syms.append(None)
         for item in syms:
             chk.count('oracle', None)
@@ -804,11 +917,17 @@ def _oracle_chords(chk, **_):
                 if plain:   # what the symbol was built from: root letter/alteration and kind abbreviation
                     rep['expect'] = [(STEP_PC[sym[0]] + sym[1]) % 12, kind_quality(kinds[sym[2]])]
                     _CUR['expect'] = rep['expect']
+                else:       # ... and the modifications: the degrees they leave, as pitch classes above the root
+                    exp = sym_expect(sym)
+                    if exp is not None:
+                        rep['expect'] = exp
+                        _CUR['expect'] = exp
+                        chk.count('oracle-chords', None, hist=['stacked-alteration' if stacked_alteration(sym) else 'modified', 'quality:%d' % exp[1]])
             try:
                 bad = chord_check(which, rep)
             except csl.ChordSymbolError:
-                if item is not None and item[1]:
-                    raise        # a plain grammar symbol must parse
+                if item is not None and (item[1] or 'expect' in rep):
+                    raise        # a grammar symbol / a symbol whose modifications can all be applied must parse
                 continue         # illegal modification: not a valid event
             if bad:
                 chk.fail(bad, rep)
